@@ -43,7 +43,8 @@ for _a in "GHNQST":
     DEFAULT[_a] = "green"
 for _a in "ACILMV":
     DEFAULT[_a] = "black"
-SPAN = re.compile(r'<span style="color:([^"]*)">(.)</span>')
+SPAN = re.compile(r'<span style="color:\s*([^";]*);?">(.)</span>')
+FRAME = re.compile(r'^\s*<p[^>]*>(.*)</p>\s*$', re.S)
 PREFIX = '<p style="font-family:Courier;">'
 SUFFIX = "</p>"
 FIXED_LENGTHS = [1, 2, 9, 10, 11, 21, 49, 50, 51, 61, 99, 100, 101, 151, 200, 201]
@@ -64,23 +65,29 @@ def check_render(rep, html, seq, palette, ctx):
     rep.cnt("renders_checked")
     if len(seq) % 10 == 1:
         rep.cnt("lengths_10k_plus_1")
-    if not isinstance(html, str) or not html.startswith(PREFIX) or not html.endswith(SUFFIX):
-        rep.viol("html_frame", "rendering of %s does not have the <p ...>...</p> frame: %r (%s)" % (seq[:60], str(html)[:120], ctx))
+    if not isinstance(html, str):
+        rep.viol("html_frame", "rendering of %s is not a string: %r (%s)" % (seq[:60], html, ctx))
         return
-    body = html[len(PREFIX):len(html) - len(SUFFIX)]
+    fm = FRAME.match(html)
+    body = fm.group(1) if fm else html          # an enclosing paragraph element, whatever its attributes, is markup
     pos = 0
     for i, res in enumerate(seq):
-        if i % 10 == 0:
+        if i % 50 == 0:
+            # a block of 50 also opens a block of 10: a space and a line break, in either order (the statement
+            # does not fix their order)
+            if body[pos:pos + 5] in (" <br>", "<br> "):
+                pos += 5
+            else:
+                facet = "block_of_50" if " " in body[pos:pos + 5] else "block_of_10"
+                rep.viol(facet, "no space + line break opening the block at residue %d of %s: ...%r (%s)" % (i + 1, seq[:60], body[pos:pos + 40], ctx),
+                         sig={"i_mod_50": 0})
+                return
+        elif i % 10 == 0:
             if body[pos:pos + 1] != " ":
                 rep.viol("block_of_10", "no space opening the block at residue %d of %s: ...%r (%s)" % (i + 1, seq[:60], body[pos:pos + 40], ctx),
-                         sig={"i_mod_50": i % 50, "last_block": i >= len(seq) - len(seq) % 10})
+                         sig={"i_mod_50": i % 50})
                 return
             pos += 1
-        if i % 50 == 0:
-            if body[pos:pos + 4] != "<br>":
-                rep.viol("block_of_50", "no line break opening the block at residue %d of %s: ...%r (%s)" % (i + 1, seq[:60], body[pos:pos + 40], ctx))
-                return
-            pos += 4
         m = SPAN.match(body, pos)
         if not m:
             rep.viol("span", "no span for residue %d (%s) of %s: ...%r (%s)" % (i + 1, res, seq[:60], body[pos:pos + 60], ctx),
